@@ -263,6 +263,7 @@ def run(ctx):
     once_enter_value_guarded(db, rep, "D5-LAZY-INIT-VALUE")
 
     d6_acc_slot_width(db, rep)
+    d9_acc16_masked(db, rep)
     # a generated wrapper hands native code an uncleared stack executor: every counter the code reads must have been stored by it (shared with C03 D8)
     import emitstate as _es
     _names = {}
@@ -408,6 +409,47 @@ def wrapper_executor_fill(db, rep, rule):
 
 
 STORE_ROW_WIDTH = {"pextrb": 1, "pextrw": 2, "movd": 4, "pextrd": 4, "movq": 8, "pextrq": 8, "movdqa": 16, "movdqu": 16, "movntdq": 16, "movups": 16, "movaps": 16}
+
+
+def d9_acc16_masked(db, rep, rule="D9-ACC16-MASKED"):
+    """D9: a 2-byte accumulator holds a 16-bit sum whichever way the function is built.  The C back end accumulates in an
+    orc_union32 / int temporary and writes it back at the end of the generated function; for every flavour of the generated
+    C (Orc-free NOEXEC code behind DISABLE_ORC, the emulator/OPCODE form, the executor form) the write-back template that is
+    reachable with var->size == 2 must truncate (`& 0xffff`), since the prototype types the out-pointer from the .orc source
+    (`.accumulator 2 a1 int`) and the executor slot is an int; with var->size == 4 there is nothing to truncate."""
+    import re
+    from exprval import reachable_under
+    f = db.func("orc_compiler_c_assemble", "orcprogram-c")
+    rep.saw(f)
+    ACC = db.enum("ORC_VAR_TYPE_ACCUMULATOR")
+    FLAV = {"NOEXEC (DISABLE_ORC code)": db.enum("ORC_TARGET_C_NOEXEC"), "OPCODE (emulator form)": db.enum("ORC_TARGET_C_OPCODE"), "executor form": 0}
+    wb = []
+    for c in f.calls("orc_compiler_append_code"):
+        a = c.args()
+        lit = strip_casts(a[1]) if len(a) > 1 else None
+        txt = lit.get("str", "") if lit is not None and lit.k == "StringLiteral" else ""
+        if re.search(r"(\*%s|accumulators\[%d\]|dest_ptrs\[%d\]\)->i)\s*\+?=", txt):
+            wb.append((c, txt))
+    if len(wb) < 4:
+        raise AnalysisBroken("orc_compiler_c_assemble: only %d accumulator write-back templates found" % len(wb))
+    n = 0
+    for fl, bits in FLAV.items():
+        for size in (2, 4):
+            env = {"var->size": size, "var->vartype": ACC, "compiler->target_flags": bits}
+            reach = [(c, t) for c, t in wb if reachable_under(f, env, lambda e, c=c: e.id == c.id)]
+            n += 1
+            if not reach:
+                rep.violation(rule, where(f), "%s:size%d" % (fl.split()[0], size), "no accumulator write-back is emitted for a %d-byte accumulator in the %s: "
+                              "the caller's accumulator is never written" % (size, fl), line=f.line)
+                continue
+            bad = [(c, t) for c, t in reach if ("0xffff" in t) != (size == 2)]
+            rep.check(not bad, rule, where(f), "%s:size%d" % (fl.split()[0], size),
+                      "%d-byte accumulator, %s: write-back %s" % (size, fl, "truncates to 16 bits" if size == 2 else "stores the full sum"),
+                      "the write-back of a %d-byte accumulator in the %s is `%s`, which %s: %s" %
+                      (size, fl, bad[0][1].strip()[:70] if bad else "", "does not truncate to 16 bits" if size == 2 else "truncates a 32-bit sum to 16 bits",
+                       "the sum comes back sign-extended / with carry bits through an out-pointer that the prototype types from the .orc source, while JIT code, "
+                       "backup code and emulation return the 16-bit value" if size == 2 else "the upper half of the sum is lost"), line=bad[0][0].line if bad else None)
+    return n
 
 
 def d6_acc_slot_width(db, rep, rule="D6-ACC-SLOT-WIDTH"):
